@@ -26,15 +26,30 @@ StrLeq(s, t) == s = t \/ StrLess(s, t)
 IsPrefixOf(a, s) == Len(a) <= Len(s) /\ SubSeq(s, 1, Len(a)) = a
 
 \* ---------------------------------------------------------------- numbers
-\* Only the shapes the drivers use: optional '-', digits. (Go's ParseFloat accepts more; tokens
-\* of other shapes are kept out of numeric fields in the case spaces that use NumVal.)
+\* Decimal syntax [-]D*[.D*][eD] (at least one mantissa digit, <= 2 fraction digits, one exponent
+\* digit); the value is kept exactly as an integer scaled by 100.  Go's ParseFloat accepts more
+\* (signs in exponents, hex, inf/nan, underscores); the case spaces never produce such strings.
 Digit == [c \in {"0", "1", "2", "3", "5", "9"} |->
             CASE c = "0" -> 0 [] c = "1" -> 1 [] c = "2" -> 2 [] c = "3" -> 3 [] c = "5" -> 5 [] c = "9" -> 9]
-IsNat(s) == s # <<>> /\ \A i \in DOMAIN s : s[i] \in DOMAIN Digit
-IsNum(s) == IsNat(s) \/ (Len(s) > 1 /\ s[1] = "-" /\ IsNat(Tail(s)))
+IsDigits(s) == \A i \in DOMAIN s : s[i] \in DOMAIN Digit
+IndexOf(s, c) == IF \E i \in DOMAIN s : s[i] = c
+                   THEN CHOOSE i \in DOMAIN s : s[i] = c /\ \A j \in 1..(i - 1) : s[j] # c ELSE 0
+IntPart(m) == IF IndexOf(m, ".") = 0 THEN m ELSE SubSeq(m, 1, IndexOf(m, ".") - 1)
+FracPart(m) == IF IndexOf(m, ".") = 0 THEN <<>> ELSE SubSeq(m, IndexOf(m, ".") + 1, Len(m))
+IsMant(m) == /\ IsDigits(IntPart(m)) /\ IsDigits(FracPart(m)) /\ Len(FracPart(m)) <= 2
+             /\ (IntPart(m) # <<>> \/ FracPart(m) # <<>>)
+MantOf(u) == IF IndexOf(u, "e") = 0 THEN u ELSE SubSeq(u, 1, IndexOf(u, "e") - 1)
+ExpOf(u) == IF IndexOf(u, "e") = 0 THEN <<"0">> ELSE SubSeq(u, IndexOf(u, "e") + 1, Len(u))
+IsUnsigned(u) == IsMant(MantOf(u)) /\ Len(ExpOf(u)) = 1 /\ IsDigits(ExpOf(u))
+IsNum(s) == s # <<>> /\ (IF s[1] = "-" THEN IsUnsigned(Tail(s)) ELSE IsUnsigned(s))
 RECURSIVE NatVal(_)
 NatVal(s) == IF s = <<>> THEN 0 ELSE 10 * NatVal(SubSeq(s, 1, Len(s) - 1)) + Digit[s[Len(s)]]
-NumVal(s) == IF s[1] = "-" THEN 0 - NatVal(Tail(s)) ELSE NatVal(s)
+RECURSIVE Pow10(_)
+Pow10(n) == IF n = 0 THEN 1 ELSE 10 * Pow10(n - 1)
+Unsigned100(u) == LET m == MantOf(u)  fp == FracPart(m) IN
+   (100 * NatVal(IntPart(m)) + (IF Len(fp) = 0 THEN 0 ELSE IF Len(fp) = 1 THEN 10 * NatVal(fp) ELSE NatVal(fp)))
+     * Pow10(NatVal(ExpOf(u)))
+NumVal(s) == IF s[1] = "-" THEN 0 - Unsigned100(Tail(s)) ELSE Unsigned100(s)    \* value * 100
 
 \* ---------------------------------------------------------------- patterns
 Star == <<"*">>                       \* the wildcard term; '*' is not in Alphabet
